@@ -593,8 +593,14 @@ impl Shape {
                             return other.clone();
                         }
                     }
+                    // A constraint that mentions itself outside a list or a
+                    // tuple gets back here with the very same shape. Like the
+                    // direct cycle above that is treated as compatible, the
+                    // entry is replaced with the result once it is known.
+                    seen.push((cref.val.clone(), other.clone(), other.clone()));
+                    let idx = seen.len() - 1;
                     let result = other.narrow_cached(&expanded, symbol_table, seen);
-                    seen.push((cref.val.clone(), other.clone(), result.clone()));
+                    seen[idx].2 = result.clone();
                     result
                 } else {
                     Shape::TypeErr(
